@@ -212,3 +212,29 @@ Theorem C07_prune_with_the_criteria_of_compute_changes_nothing :
     prune_struct cs (compute shape (AdjGrid per) vals minv cs) = compute shape (AdjGrid per) vals minv cs.
 Proof. exact grid_prune_same. Qed.
 Print Assumptions C07_prune_with_the_criteria_of_compute_changes_nothing.
+
+(* ... and more generally prune() with criteria no stricter than those of the computation
+   (min_delta 0, min_npix no larger, the same other criteria; the computation may have used
+   any min_delta) is the identity on the computed dendrogram (PruneLaxer.v) - the oracle's
+   "criteria every leaf already meets" check as a theorem for the call right after compute *)
+From Dendro Require Import PruneLaxer.
+Theorem C07_prune_no_stricter_than_compute_changes_nothing :
+  forall shape per vals minv cs cs0,
+    Forall (fun n => 0 < n) shape -> laxer_after cs cs0 ->
+    prune_struct cs (compute shape (AdjGrid per) vals minv cs0) = compute shape (AdjGrid per) vals minv cs0.
+Proof. exact grid_prune_laxer. Qed.
+Print Assumptions C07_prune_no_stricter_than_compute_changes_nothing.
+
+Theorem C07_builtin_parameters_no_stricter_than_compute :
+  forall d n m d0 n0 m0 user,
+    d <= 0 -> 0 < m -> 0 < m0 -> n * m0 <= n0 * m -> nodelta user = true ->
+    laxer_after (MinDelta d :: MinNpix n m :: user) (MinDelta d0 :: MinNpix n0 m0 :: user).
+Proof. exact laxer_after_builtin. Qed.
+Print Assumptions C07_builtin_parameters_no_stricter_than_compute.
+
+Example C07_no_stricter_premises_hold :
+  let v := [Some 5; Some 4; Some 1; Some 6; Some 5; Some 1; Some 2] in
+  length (fnodes (compute [7] (AdjGrid [false]) v None [MinDelta 1; MinNpix 2 1])) = 3%nat /\
+  prune_struct [MinDelta 0; MinNpix 3 2] (compute [7] (AdjGrid [false]) v None [MinDelta 1; MinNpix 2 1])
+  = compute [7] (AdjGrid [false]) v None [MinDelta 1; MinNpix 2 1].
+Proof. vm_compute. split; reflexivity. Qed.
